@@ -415,3 +415,17 @@ func (w *World) MakeTxn(s TxnSpec) *transaction.Transaction {
 
 // Advance moves logical time forward.
 func (w *World) Advance(d time.Duration) { w.Now += common.Timestamp(d / time.Second) }
+
+// Reopen starts a second, independent execution of an already built block: same header (hash, round, miner, seed, time),
+// same previous block, fresh state trie and block cache.
+func (w *World) Reopen(orig *block.Block) *BlockCtx {
+	b := block.NewBlock(w.Chain.GetKey(), orig.Round)
+	b.MinerID = orig.MinerID
+	b.SetPreviousBlock(orig.PrevBlock)
+	b.CreationDate = orig.CreationDate
+	b.SetRoundRandomSeed(orig.GetRoundRandomSeed())
+	b.Hash = orig.Hash
+	st := block.CreateStateWithPreviousBlock(orig.PrevBlock, w.Chain.GetStateDB(), orig.Round)
+	bc := statecache.NewBlockCache(w.Chain.GetStateCache(), statecache.Block{Round: b.Round, Hash: b.Hash, PrevHash: b.PrevHash})
+	return &BlockCtx{W: w, B: b, State: st, Cache: bc, Prev: orig.PrevBlock}
+}
